@@ -356,6 +356,15 @@ def verify(contract, tier, check, budget=None, prefix=None):
             metas.append((shape, values, st0, ob))
         if not ex.obligations:
             check.engine_error(f"{contract.key}[{shape.name}]: zero obligations generated")
+    dump = os.environ.get("PYVC_DUMP")
+    if dump:
+        os.makedirs(dump, exist_ok=True)
+        for (oid, smt2, *_), (_, _, _, ob) in zip(jobs, metas):
+            safe = "".join(c if c.isalnum() or c in "._-" else "_" for c in oid)[:150]
+            with open(os.path.join(dump, safe + ".smt2"), "w") as f:
+                f.write(smt2)
+            with open(os.path.join(dump, safe + ".txt"), "w") as f:
+                f.write("TRACE " + " / ".join(ob.trace) + "\nGOAL " + str(ob.goal) + "\n")
     results = solve_all(jobs)
     for res, (shape, values, st0, ob) in zip(results, metas):
         rep.obligations += 1
